@@ -40,6 +40,12 @@ ALTERNATIVES = {"exists": (["stat"],)}
 NOT_OVERRIDDEN = ["set_creation_time"]
 
 
+def sname_(t):
+    while t[0] in ("okval", "await"):
+        t = t[1]
+    return t[1].split("::")[-1] if t[0] == "call" and isinstance(t[1], str) else ""
+
+
 def open_options(tr, recv):
     """option set of an OpenOptions builder chain: {'read','write','append','create','truncate','create_new'} with constant true"""
     opts = set()
@@ -174,6 +180,65 @@ def table_o_shape(facts, rep, rule, w):
         rep.ob(rule, b.id, "exists never fails", not errs, "no Err return" if not errs else
                "PhysicalFS::exists can return Err (%s): a probe below a regular file (ENOTDIR) is an error here but Ok(false) "
                "on the in-memory backend, and is_file/is_dir/remove_dir_all inherit the difference" % fmt(norm(errs[0]))[:80], b.span)
+    # move_dir: whatever makes the native rename fail, the answer is NotSupported, so that the path layer decides the call by
+    # its generic route — the same route the in-memory backend always takes (same refusals, same partial effects)
+    b = ops.get("move_dir")
+    if b is not None:
+        bad = []
+        for ct, _, bb in inter.ret_cases(b):
+            if inter.case_polarity(ct) == "ok":
+                continue
+            c = norm(ct)
+            kinds = [x[2] for x in walk(c) if x[0] == "agg" and x[1] == "error::VfsErrorKind"]
+            if kinds != ["NotSupported"]:
+                bad.append(fmt(c)[:60])
+        n += 1
+        rep.ob(rule, b.id, "move_dir: a failed rename always falls back (NotSupported)", not bad, "" if not bad else
+               "PhysicalFS::move_dir returns %s for some failures instead of NotSupported: the generic route (which the in-memory "
+               "backend always takes) is skipped, so the two backends leave different trees behind after the same failing call" % bad[0], b.span)
+    # read_dir hands out names only when they convert losslessly (a lossy name would be listed but not exist)
+    b = ops.get("read_dir")
+    if b is not None:
+        lossy = [s_.line for cb in inter.code_bodies(b) for s_ in inter.sites(cb)
+                 if s_.short.split("::")[-1] in ("to_string_lossy", "from_utf8_lossy")]
+        n += 1
+        rep.ob(rule, b.id, "read_dir: names are converted losslessly", not lossy, "" if not lossy else
+               "a lossy conversion (to_string_lossy) is applied to entry names: a non-UTF-8 name is listed with U+FFFD and "
+               "the listed path does not exist", lossy[0] if lossy else b.span)
+    # metadata reports the OS time stamps as std hands them out (Metadata::modified/created/accessed), unconverted
+    b = ops.get("metadata")
+    if b is not None:
+        okt = True
+        seen_fields = 0
+        why = ""
+        for ct, _, bb in inter.ret_cases(b):
+            if inter.case_polarity(ct) != "ok":
+                continue
+            v = ct
+            if v[0] == "agg" and v[2] == "Ok" and v[3]:
+                v = v[3][0][1]
+            v = norm(v)
+            for alt in (v[1] if v[0] == "phi" else (v,)):
+                if alt[0] != "agg":
+                    continue
+                d = dict(alt[3])
+                for fld, getter in (("modified", "modified"), ("created", "created"), ("accessed", "accessed")):
+                    t = d.get(fld)
+                    if t is None:
+                        continue
+                    seen_fields += 1
+                    x = t
+                    while x[0] in ("okval", "await"):
+                        x = x[1]
+                    good = x[0] == "call" and x[1] == "Result::ok" and x[2] and norm(x[2][0])[0] in ("call", "await") and \
+                        sname_(norm(x[2][0])) == getter
+                    if not good:
+                        okt = False
+                        why = "%s = %s" % (fld, fmt(t)[:60])
+        n += 1
+        rep.ob(rule, b.id, "metadata: time stamps are Metadata::modified/created/accessed(..).ok(), unconverted", okt and seen_fields >= 3,
+               "%d fields" % seen_fields if okt else "a reported time stamp is computed by hand (%s): values the conversion gets wrong "
+               "(pre-epoch, sub-second) no longer round-trip" % why, b.span)
     for op in NOT_OVERRIDDEN:
         n += 1
         rep.ob(rule, w.physical, "%s not overridden" % op, op not in ops,
